@@ -13,11 +13,19 @@ def run(tier, seed, replay=None, pid="C04"):
     ck = vlib.Check(pid, tier, seed, "model_checking")
     binary = vlib.build_harness()
     kinds = ALL if pid == "C04" else BODY
+    # quick: one faulty sync, with a second fault at the next request from a small set of kinds; thorough: two faulty syncs in a row
+    # (single faults), and -- C04 -- one faulty sync with every pair of kinds
     c = dict(N=3, Segs="{0,1,2}", Kinds=kinds, MaxFaulty=1 if tier == "quick" else 2, FIXED=True, EXPORT=True, MaxAddrs=2 if pid == "C04" else 1,
-             PairKinds=('{"stall","s500"}' if tier == "quick" else ALL) if pid == "C04" else "{}")
-    r = vlib.tlc("SyncFaults", (pid + ".cfg", vlib.cfg_text(c, INV)), timeout=7000, tag=pid.lower())
+             PairKinds='{"stall","s500"}' if (pid == "C04" and tier == "quick") else "{}")
+    r = vlib.tlc("SyncFaults", (pid + ".cfg", vlib.cfg_text(c, INV)), timeout=7000, tag=pid.lower(), extra=["-maxSetSize", "8000000"])
     ck.add_tlc("SyncFaults", r, "mode x trigger x segment size x fault kind x request index (%d faulty sync(s)) then a clean sync: store sound, "
                "failure leaves latest/notifications/cache as required, clean retry converges" % c["MaxFaulty"])
+    if pid == "C04" and tier == "thorough":
+        r2 = vlib.tlc("SyncFaults", ("C04pairs.cfg", vlib.cfg_text(dict(c, MaxFaulty=1, PairKinds=ALL), INV)), timeout=7000, tag="c04pairs", extra=["-maxSetSize", "8000000"])
+        ck.add_tlc("SyncFaults/pairs", r2, "one faulty sync with every pair of fault kinds at two consecutive requests")
+        with open(os.path.join(r.workdir, "c04_behaviours.ndjson"), "a") as f:
+            f.write(open(os.path.join(r2.workdir, "c04_behaviours.ndjson")).read())
+        shutil.rmtree(r2.workdir, ignore_errors=True)
     if pid == "C04":
         p = vlib.tlc("SyncFaults", ("pinned.cfg", vlib.cfg_text(dict(c, FIXED=False, EXPORT=False, MaxFaulty=1), ["Converges"])), workers=4, timeout=900, tag="c04p")
         ck.cov["tlc_runs"].append({"name": "pinned fetch (noPath latched by 404/403) must violate Converges", "violated": p.violated})
@@ -26,9 +34,11 @@ def run(tier, seed, replay=None, pid="C04"):
         shutil.rmtree(p.workdir, ignore_errors=True)
     args = ["c04", "-behaviours", os.path.join(r.workdir, "c04_behaviours.ndjson"), "-seed", str(seed)]
     if pid == "C02":
-        args += ["-all-digests", "-variants", "2" if tier == "quick" else "64"]
+        args += ["-all-digests", "-variants", "2" if tier == "quick" else "4"]
     else:
-        args += ["-variants", "2" if tier == "quick" else "6"]
+        args += ["-variants", "2" if tier == "quick" else "4"]
+    if tier == "thorough":
+        args += ["-quiet-ms", "40"]
     rep = vlib.run_harness(binary, args, timeout=14000)
     if rep.get("extra", {}).get("read_error") or rep.get("extra", {}).get("shards_failed"):
         raise vlib.Infra("%s harness: %s" % (pid, rep.get("extra")))
